@@ -35,7 +35,7 @@ func (vc *VC) havocHeapKeepOld(st, pre *State, h string, pc Term) {
 	if info == nil {
 		return
 	}
-	if !vc.specs.isImmutableHeap(h) || !hasPrefix(info.Sort, "(Array ") {
+	if !vc.specs.isImmutableHeap(h) || !hasPrefix(info.Sort, "(Array ") || vc.noKeepOld || (vc.contract != nil && vc.contract.Mutates) {
 		vc.havocHeap(st, h)
 		return
 	}
